@@ -11,8 +11,9 @@ fn mutate(rng: &mut Rng, wasm: &[u8]) -> (Vec<u8>, &'static str) {
     if w.len() < 10 {
         return (w, "none");
     }
-    match rng.below(11) {
+    match rng.below(12) {
         9 | 10 => body_edit(rng, &w),
+        11 => custom_count(rng, &w),
         0 => {
             let n = rng.range(0, (w.len() - 1) as u64) as usize;
             w.truncate(n);
@@ -91,6 +92,77 @@ fn mutate(rng: &mut Rng, wasm: &[u8]) -> (Vec<u8>, &'static str) {
             (w, "unknown-section")
         }
     }
+}
+
+/// a `producers` or `name` custom section whose declared element count is far larger than what
+/// follows (walrus reads both sections itself; the count is not validated by anyone before that).
+/// The module stays valid - the content of these sections is not subject to validation - so the
+/// gate has to accept it, without dying on the way.
+fn custom_count(rng: &mut Rng, w: &[u8]) -> (Vec<u8>, &'static str) {
+    let huge: &[u8] = match rng.below(3) {
+        0 => &[0xff, 0xff, 0xff, 0xff, 0x0f],
+        1 => &[0x80, 0x80, 0x80, 0x80, 0x04],
+        _ => &[0xff, 0xff, 0xff, 0x7f],
+    };
+    let mut payload: Vec<u8> = vec![];
+    let name: &str;
+    let kind: &'static str;
+    if rng.chance(1, 2) {
+        name = "producers";
+        kind = "producers-count";
+        match rng.below(3) {
+            0 => payload.extend_from_slice(huge),
+            1 => {
+                // one field with a huge value count
+                payload.push(1);
+                payload.extend_from_slice(&[8]);
+                payload.extend_from_slice(b"language");
+                payload.extend_from_slice(huge);
+            }
+            _ => {
+                payload.extend_from_slice(huge);
+                payload.extend_from_slice(&[3]);
+                payload.extend_from_slice(b"sdk");
+                payload.extend_from_slice(&[1, 1, b'x', 1, b'1']);
+            }
+        }
+    } else {
+        name = "name";
+        kind = "name-count";
+        // subsection 1 (functions), 2 (locals) or 7 (globals) with a huge count
+        let sub = *rng.pick(&[1u8, 2, 7, 4]);
+        let mut body: Vec<u8> = huge.to_vec();
+        if rng.chance(1, 2) {
+            body.extend_from_slice(&[0, 1, b'f']);
+        }
+        payload.push(sub);
+        leb(body.len(), &mut payload);
+        payload.extend_from_slice(&body);
+    }
+    let mut sec = vec![];
+    leb(name.len(), &mut sec);
+    sec.extend_from_slice(name.as_bytes());
+    sec.extend_from_slice(&payload);
+    let mut out = w.to_vec();
+    // drop an existing section of that name (the name section may appear once)
+    let spans = section_spans(&out);
+    for (a, b) in spans.into_iter().rev() {
+        if out[a] == 0 {
+            let mut p = a + 1;
+            while out[p] & 0x80 != 0 {
+                p += 1;
+            }
+            p += 1;
+            let nl = out[p] as usize;
+            if p + 1 + nl <= b && &out[p + 1..p + 1 + nl] == name.as_bytes() {
+                out.drain(a..b);
+            }
+        }
+    }
+    out.push(0);
+    leb(sec.len(), &mut out);
+    out.extend_from_slice(&sec);
+    (out, kind)
 }
 
 fn leb(mut n: usize, out: &mut Vec<u8>) {
@@ -217,10 +289,17 @@ struct Stats {
     kinds: std::collections::BTreeMap<&'static str, (usize, usize)>,
     samples: usize,
     stable_differs: usize,
+    trace: bool,
 }
 
 fn run_bytes(case: &str, kind: &'static str, bytes: &[u8], stats: &mut Stats) {
     let only = out::hex(bytes);
+    if stats.trace {
+        // (worker re-run after the process died: the last line of this kind names the input)
+        use std::io::Write;
+        println!("T\t{}\t{}\t{}", case, kind, only);
+        std::io::stdout().flush().unwrap();
+    }
     for stable in [false, true] {
         let want = decode::validate(bytes, decode::walrus_features(stable));
         let mut cfg = ModuleConfig::new();
@@ -313,14 +392,8 @@ pub fn deep(depth: usize) {
     println!("DEEPGATE {} {} {}", depth, ok, secs);
 }
 
-pub fn main(seed: u64, tier: &str, only: Option<&str>) {
-    let mut stats = Stats::default();
-    if let Some(o) = only {
-        run_bytes("replay", "replay", &out::unhex(o), &mut stats);
-        return;
-    }
-    let n = if tier == "thorough" { 30000 * crate::out::thorough_scale() } else { 1200 };
-    for case in 0..n {
+fn run_range(seed: u64, from: usize, to: usize, stats: &mut Stats) {
+    for case in from..to {
         let mut rng = Rng::new(seed ^ 0x6a7e, case as u64);
         match case % 6 {
             0 => {
@@ -330,14 +403,14 @@ pub fn main(seed: u64, tier: &str, only: Option<&str>) {
                 for _ in 0..len {
                     b.push(if rng.chance(1, 3) { rng.below(12) as u8 } else { rng.next() as u8 });
                 }
-                run_bytes(&format!("r{}", case), "random", &b, &mut stats);
+                run_bytes(&format!("r{}", case), "random", &b, stats);
             }
             1 => {
                 let mut g = GenCfg::random(&mut rng);
                 g.extern_elem_global = false;
                 g.max_funcs = 4;
                 let (wasm, _) = gen::gen_valid(&mut rng, &g);
-                run_bytes(&format!("v{}", case), "valid", &wasm, &mut stats);
+                run_bytes(&format!("v{}", case), "valid", &wasm, stats);
             }
             _ => {
                 let mut g = if case % 2 == 0 { GenCfg::mvp() } else { GenCfg::random(&mut rng) };
@@ -351,9 +424,101 @@ pub fn main(seed: u64, tier: &str, only: Option<&str>) {
                     w = w2;
                     kind = k2;
                 }
-                run_bytes(&format!("m{}", case), kind, &w, &mut stats);
+                run_bytes(&format!("m{}", case), kind, &w, stats);
             }
         }
+    }
+}
+
+fn print_stats(stats: &Stats) {
+    out::stat("gate.verdicts", stats.cases);
+    out::stat("gate.accepted", stats.accepted);
+    out::stat("gate.rejected", stats.rejected);
+    out::stat("gate.inputs_where_only_stable_changes_the_verdict", stats.stable_differs);
+    for (k, (a, r)) in &stats.kinds {
+        out::stat(&format!("gate.{}.accepted", k), *a);
+        out::stat(&format!("gate.{}.rejected", k), *r);
+    }
+}
+
+pub fn main(seed: u64, tier: &str, only: Option<&str>) {
+    let mut stats = Stats::default();
+    if let Some(o) = only {
+        run_bytes("replay", "replay", &out::unhex(o), &mut stats);
+        return;
+    }
+    let n = if tier == "thorough" { 30000 * crate::out::thorough_scale() } else { 1200 };
+    // worker: a range of cases, in this process
+    if let Ok(r) = std::env::var("VERIF_GATE_RANGE") {
+        let (a, b) = r.split_once(':').unwrap();
+        stats.trace = std::env::var("VERIF_GATE_TRACE").is_ok();
+        run_range(seed, a.parse().unwrap(), b.parse().unwrap(), &mut stats);
+        print_stats(&stats);
+        return;
+    }
+    // parent: the cases run in worker processes, because what the property excludes includes ways of
+    // dying that no `catch_unwind` sees (allocation failure, stack overflow, abort). A worker that
+    // dies is run again with a trace to name the input it died on, which is reported, and the rest
+    // of its range is run after it.
+    let exe = std::env::current_exe().unwrap();
+    let workers = 8usize;
+    let per = (n + workers - 1) / workers;
+    let handles: Vec<_> = (0..workers)
+        .map(|w| {
+            let exe = exe.clone();
+            let tier = tier.to_string();
+            std::thread::spawn(move || {
+                let mut text = String::new();
+                let (mut from, to) = (w * per, ((w + 1) * per).min(n));
+                let mut deaths = 0;
+                while from < to {
+                    let run = |trace: bool| {
+                        let mut c = std::process::Command::new(&exe);
+                        c.args(["gate", "--tier", &tier]).env("VERIF_GATE_RANGE", format!("{}:{}", from, to));
+                        if trace {
+                            c.env("VERIF_GATE_TRACE", "1");
+                        }
+                        c.output().expect("spawn gate worker")
+                    };
+                    let o = run(false);
+                    if o.status.success() {
+                        text.push_str(&String::from_utf8_lossy(&o.stdout));
+                        break;
+                    }
+                    deaths += 1;
+                    let t = run(true);
+                    let tout = String::from_utf8_lossy(&t.stdout).to_string();
+                    let last = tout.lines().filter(|l| l.starts_with("T\t")).last().map(|l| l.to_string());
+                    // verdicts of the cases before the fatal one
+                    for l in tout.lines() {
+                        if !l.starts_with("T\t") && !l.starts_with("S\t") {
+                            text.push_str(l);
+                            text.push('\n');
+                        }
+                    }
+                    let Some(last) = last else { break };
+                    let f: Vec<&str> = last.split('\t').collect();
+                    let err = String::from_utf8_lossy(&t.stderr);
+                    text.push_str(&format!(
+                        "O\t{}\tFAIL\tC05:process-died\t[{}] the process died while parsing ({:?}; {}) | only: {}\n",
+                        f[1],
+                        f[2],
+                        t.status,
+                        err.lines().last().unwrap_or("").replace('\t', " "),
+                        f[3]
+                    ));
+                    let idx: usize = f[1][1..].parse().unwrap_or(to);
+                    from = idx + 1;
+                    if deaths >= 5 {
+                        break;
+                    }
+                }
+                text
+            })
+        })
+        .collect();
+    for h in handles {
+        print!("{}", h.join().unwrap());
     }
     // deep nesting in a subprocess (a stack overflow aborts the process)
     let exe = std::env::current_exe().unwrap();
@@ -365,12 +530,5 @@ pub fn main(seed: u64, tier: &str, only: Option<&str>) {
         Err(_) => false,
     };
     out::oracle("deep", ok && t0.elapsed().as_secs() < 120, "C05:deep-nesting", &format!("nesting depth {} on a 256 KiB stack: {}", depth, o.map(|o| format!("status {:?} {}", o.status.code(), String::from_utf8_lossy(&o.stdout).trim().to_string())).unwrap_or("spawn failed".into())));
-    out::stat("gate.verdicts", stats.cases);
-    out::stat("gate.accepted", stats.accepted);
-    out::stat("gate.rejected", stats.rejected);
-    out::stat("gate.inputs_where_only_stable_changes_the_verdict", stats.stable_differs);
-    for (k, (a, r)) in &stats.kinds {
-        out::stat(&format!("gate.{}.accepted", k), *a);
-        out::stat(&format!("gate.{}.rejected", k), *r);
-    }
+    let _ = stats;
 }
